@@ -548,8 +548,12 @@ def mk():
     return dds.keep('/src/v', prod)
 
 
+def nprod():
+    return None
+
+
 def read():
-    return dds.load('/src/v')
+{rform}
 
 
 def mid():
@@ -577,6 +581,19 @@ def root():
 """
 
 
+# the statement shapes through which the reader obtains the loaded value
+RFORMS = {
+    "return": "    return dds.load('/src/v')",
+    "subscript": "    res = {}\n    res['raw'] = dds.load('/src/v')\n    return res['raw']",
+    "tuple_target": "    a, b = dds.load('/src/v'), 1\n    return a",
+    "annassign": "    v: object = dds.load('/src/v')\n    return v",
+    "augassign": "    out = ()\n    out += (dds.load('/src/v'),)\n    return out[0]",
+    "listelem": "    return [dds.load('/src/v')][0]",
+    # a None-valued result kept and loaded back in the same evaluation, before the load that matters
+    "none_first": "    dds.keep('/src/n', nprod)\n    nothing = dds.load('/src/n')\n    return dds.load('/src/v') if nothing is None else nothing",
+}
+
+
 def pure_strategy():
     from hypothesis import strategies as st
 
@@ -585,6 +602,7 @@ def pure_strategy():
         "inner": st.sampled_from(["read", "mid"]),
         # render_ho: the loading function is handed by name to the kept function, which calls it
         "kept": st.sampled_from(["enriched", "report", "read", "render_ho", "render_ho"]),
+        "rform": st.sampled_from(sorted(RFORMS)),
         "store": st.sampled_from(STORES).map(list),
         "edits": st.lists(st.sampled_from(["live", "live", "reload", "none", "revert_live"]), min_size=1, max_size=4),
     })
@@ -601,7 +619,7 @@ def check_pure(case, ev=None, scratch=None):
     scratch = scratch or common.Scratch("vf-c09")
     root_dir, store_dir = scratch.sub(), scratch.sub()
     w = proc.Worker()
-    tag = f"[uninstrumented pipeline, kept={case['kept']} via {case['inner']}, {case['store'][0]}]"
+    tag = f"[uninstrumented pipeline, kept={case['kept']} via {case['inner']}, reader form {case.get('rform', 'return')}, {case['store'][0]}]"
     try:
         vs = 1
         hist = [vs]
@@ -609,7 +627,7 @@ def check_pure(case, ev=None, scratch=None):
 
         def files():
             kept = case["kept"] if case["kept"] != "render_ho" else "render, " + case["inner"]
-            return {"pk/__init__.py": "", "pk/m0.py": PURE_SRC.format(vs=vs, inner=case["inner"], kept=kept)}
+            return {"pk/__init__.py": "", "pk/m0.py": PURE_SRC.format(vs=vs, inner=case["inner"], kept=kept, rform=RFORMS[case.get("rform", "return")])}
 
         for rel, content in files().items():
             pth = os.path.join(root_dir, rel)
@@ -652,7 +670,7 @@ def check_pure(case, ev=None, scratch=None):
                 w.call("call", module="vf.harness.worker", func="cmd_setvar", args=["pk.m0", "VS", vs])
             evaluate(si)
         if ev is not None:
-            ev.case(case, len(set(hist)) > 1, features=["uninstrumented-pipeline", "pure-kept:" + case["kept"]] + ["pure-edit:" + e for e in sorted(set(case["edits"]))])
+            ev.case(case, len(set(hist)) > 1, features=["uninstrumented-pipeline", "pure-kept:" + case["kept"], "reader-form:" + case.get("rform", "return")] + ["pure-edit:" + e for e in sorted(set(case["edits"]))])
     finally:
         w.close()
         if own:
